@@ -476,7 +476,7 @@ def gen_lifetime(rng):
 class C04(fw.Property):
     id = "C04"
     coq_props = "Props/C04.v"
-    gen_jobs = []
+    gen_jobs = ["c03_constants", "c14_message_id"]     # round 7: constants + message-ID successor tie (Proofs/C04Tie.v)
     model_imports = ["Verif.Model.C04"]
     quick_budget = 380
     thorough_budget = 5000
@@ -492,7 +492,7 @@ class C04(fw.Property):
                   "(first arrival + EXCHANGE_LIFETIME) and the next copy is executed; a key that did not arrive stays unknown whatever other endpoints do; "
                   "none of the message layer's internal-error branches is reachable (C04_no_exception); other remotes' use of the same mid is independent; the repeated reply is an ACK unless the peer reused the live message ID for a "
                   "confirmable non-request. The model is tied to the code by running both on the same event scripts.")
-    level_note = ("Hand-written model (no translated kernel): trusted through the correspondence streams only. Not modelled: multicast, shutdown, "
+    level_note = ("Hand-written model; only its transport constants and the message-ID successor are tied to translated source (Proofs/C04Tie.v), the rest is trusted through the correspondence streams. Not modelled: multicast, shutdown, "
                   "outgoing client requests, observe, block-wise, non-default TransportTuning of incoming messages, continuation after an internal "
                   "exception (the KeyError/AssertionError branches are modelled as outputs; C04_no_exception proves them unreachable from the initial state). All ACKs sent under one key inside its lifetime are one message (C04_single_ack, unconditional). A peer that reuses a live "
                   "message ID for a ping or an unmatched CON response makes the remembered reply an RST (C04_impolite_peer_gets_rst); "
